@@ -16,6 +16,39 @@ from .model import AnalysisError, Program
 from .report import Check
 
 
+def _eval_job(job):
+    """Worker: run the given properties on the program with `overrides`; returns {prop: [(rule, func, construct, message)] | 'ANALYSIS-ERROR: …'}."""
+    repo, pkg, overrides, props = job
+    out = {}
+    try:
+        mp = Program(repo, pkg, overrides=overrides)
+    except AnalysisError as e:
+        return {p: f'ANALYSIS-ERROR: {e}' for p in props}
+    for p in props:
+        mod = importlib.import_module(f'pjx.props.{p.lower()}')
+        try:
+            ck = Check(p, 'quick')
+            mod.run(ck, mp)
+            out[p] = [(f.rule, f.func, f.construct, f.message) for f in ck.findings]
+        except AnalysisError as e:
+            out[p] = f'ANALYSIS-ERROR: {e}'
+        except Exception as e:      # a crash of the checker on a variant is a checker failure, reported as such
+            out[p] = f'ANALYSIS-ERROR: internal error {type(e).__name__}: {e}'
+    return out
+
+
+def eval_variants(prog: Program, jobs: List[Dict[str, str]], props: List[str]) -> List[Dict[str, Any]]:
+    """Analyse every override set (in memory) with the given properties, in parallel worker processes."""
+    import multiprocessing as mp
+    n = int(os.environ.get('PJX_JOBS', '0') or 0) or min(14, max(1, (os.cpu_count() or 2) - 2))
+    payload = [(prog.repo, prog.pkg, ov, props) for ov in jobs]
+    if n <= 1 or len(payload) <= 2:
+        return [_eval_job(j) for j in payload]
+    ctx = mp.get_context('fork')
+    with ctx.Pool(min(n, len(payload))) as pool:
+        return pool.map(_eval_job, payload, chunksize=1)
+
+
 def _splice(src: str, m: Dict[str, Any]) -> Optional[str]:
     cnt = src.count(m['find'])
     nth = m.get('nth')
@@ -108,6 +141,7 @@ def run_seeded(prop: str, prog: Program, baseline: Optional[Check] = None) -> Di
     res: Dict[str, Any] = {'seeded': 0, 'reported': {}, 'not_reported': [], 'not_applicable': []}
     if not os.path.isdir(base_dir):
         return res
+    names, jobs = [], []
     for name in sorted(os.listdir(base_dir)):
         d = os.path.join(base_dir, name)
         if not os.path.isdir(d) or not name.startswith(prop + '-'):
@@ -117,13 +151,15 @@ def run_seeded(prop: str, prog: Program, baseline: Optional[Check] = None) -> Di
         if ov is None:
             res['not_applicable'].append(name)
             continue
-        try:
-            ck = Check(prop, 'quick')
-            mod.run(ck, Program(prog.repo, prog.pkg, overrides=ov))
-            new = sorted({f.rule for f in ck.findings if f.key not in base_keys})
-        except AnalysisError as e:
+        names.append(name)
+        jobs.append(ov)
+    for name, r in zip(names, eval_variants(prog, jobs, [prop])):
+        got = r[prop]
+        if isinstance(got, str):
+            res.setdefault('analysis_error', {})[name] = got[:140]
             new = []
-            res.setdefault('analysis_error', {})[name] = str(e)[:120]
+        else:
+            new = sorted({rule for rule, func, construct, _ in got if (rule, func, construct) not in base_keys})
         if new:
             res['reported'][name] = new
         else:
@@ -139,25 +175,24 @@ def run_battery(prop: str, prog: Program, baseline: Optional[Check] = None) -> D
         mod.run(baseline, prog)
     base_keys = {f.key for f in baseline.findings}
     res: Dict[str, Any] = {'mutants': len(mutants), 'detected': [], 'missed': [], 'skipped': [], 'details': {}}
+    todo, jobs = [], []
     for m in mutants:
         ov = apply(prog, m)
         if ov is None:
             res['skipped'].append(m['name'])
             continue
-        try:
-            mp = Program(prog.repo, prog.pkg, overrides=ov)
-            ck = Check(prop, 'quick')
-            mod.run(ck, mp)
-            new = [f for f in ck.findings if f.key not in base_keys]
-            expect = m['expect'] if isinstance(m['expect'], (list, tuple)) else [m['expect']]
-            hit = [f for f in new if f.rule in expect]
-            if m.get('silent'):
-                ok = not new
-            else:
-                ok = bool(hit)
-            res['details'][m['name']] = [f'{f.rule}: {f.func}: {f.message[:100]}' for f in new][:4]
-        except AnalysisError as e:
+        todo.append(m)
+        jobs.append(ov)
+    for m, r in zip(todo, eval_variants(prog, jobs, [prop])):
+        got = r[prop]
+        if isinstance(got, str):
             ok = bool(m.get('accept_analysis_error'))
-            res['details'][m['name']] = [f'ANALYSIS-ERROR: {e}']
+            res['details'][m['name']] = [got]
+        else:
+            new = [(rule, func, construct, msg) for rule, func, construct, msg in got if (rule, func, construct) not in base_keys]
+            expect = m['expect'] if isinstance(m['expect'], (list, tuple)) else [m['expect']]
+            hit = [x for x in new if x[0] in expect]
+            ok = (not new) if m.get('silent') else bool(hit)
+            res['details'][m['name']] = [f'{rule}: {func}: {msg[:100]}' for rule, func, construct, msg in new][:4]
         (res['detected'] if ok else res['missed']).append(m['name'])
     return res
